@@ -69,7 +69,8 @@ def gen_case(rng, drop_rate=0.2):
             src, vals = gen_source_values(rng, spec["dtype"], n, spec["nullable"])
             cols[spec["name"]]["dtype"] = src
             cols[spec["name"]]["vals"] = vals
-        if rng.random() < 0.3 and spec["regex"] is None:
+        if rng.random() < 0.3 and spec["regex"] is None and (
+                spec["name"] not in cols or cols[spec["name"]]["dtype"] == spec["dtype"]):
             spec["default"] = rng.choice(A.POOL[spec["dtype"]])
             if spec["name"] in cols and A.can_null(cols[spec["name"]]["dtype"]) and n:
                 cols[spec["name"]]["vals"][rng.randrange(n)] = A.NULL
@@ -113,12 +114,30 @@ def gen_case(rng, drop_rate=0.2):
         S["strict"] = "filter"
     if rng.random() < drop_rate:
         S["dropInvalid"] = True
+    if S["dropInvalid"]:
+        unique_labels(D)      # rows are dropped by label (documented): keep labels unique
     # joint uniqueness over columns that survive parsing (an empty subset makes pandas raise inside
     # `duplicated`, which is C06's finding, not this property's subject)
     declared = {s["name"] for s in S["columns"] if s["regex"] is None}
     present = {col["name"] for col in D["cols"]}
     S["unique"] = [x for x in S["unique"] if x in declared and x in present]
     return c
+
+
+def unique_labels(D):
+    lv = D["index"][0]
+    seen, vals = set(), []
+    for v in lv["vals"]:
+        k = json.dumps(v)
+        while k in seen:
+            if lv["dtype"] == "int64":
+                v = A.vint(A.to_py(v) + 31)
+            else:
+                v = A.vstr(A.to_py(v) + "'")       # labels with quotes
+            k = json.dumps(v)
+        seen.add(k)
+        vals.append(v)
+    D["index"] = [dict(lv, vals=vals)]
 
 
 def validate(S, df):
@@ -172,7 +191,15 @@ def run_cases(rep, cases):
                                         f" ({k3})", region=known_region(c, out, "fixpoint"),
                                      detail={"returned": safe_abs(out), "again": safe_abs(o3) if k3 == "ok" else None})
                 continue
-        # correspondence with the model
+        # correspondence with the model (only where the model speaks: checks applied to values of their
+        # own kind, and no duplicated nulls under drop_invalid_rows — C02's recorded finding)
+        parsed = a.get("parsed")
+        if parsed is None or not P.well_typed({"schema": S, "frame": dict(parsed["frame"], nrows=D["nrows"])}):
+            rep.count("corr-skipped:ill-typed-after-parsing")
+            continue
+        if S["dropInvalid"] and null_dups(S, parsed["frame"]):
+            rep.count("corr-skipped:null-duplicates")
+            continue
         if kind == "ok":
             impl_fr = safe_abs(out)
             if model_kind != "ok" or impl_fr is None or normframe(strip_nrows(impl_fr)) != normframe(strip_nrows(a["out"]["frame"])):
@@ -181,6 +208,28 @@ def run_cases(rep, cases):
         elif kind == "errors" and model_kind != "errors":
             rep.correspondence_break(c, f"implementation raises SchemaErrors, model says {model_kind}",
                                      detail={"reasons": [e.reason_code.name for e in out.schema_errors][:5]})
+
+
+def null_dups(S, fr):
+    cols = {c["name"]: c for c in fr["cols"]}
+    for spec in S["columns"]:
+        if spec["unique"]:
+            for c in fr["cols"]:
+                if sum(1 for v in c["vals"] if v == A.NULL) >= 2:
+                    return True
+    if S["index"] is not None and S["index"]["unique"]:
+        if sum(1 for v in fr["index"][0]["vals"] if v == A.NULL) >= 2:
+            return True
+    if S["unique"]:
+        sub = [cols[n]["vals"] for n in S["unique"] if n in cols]
+        rows = list(zip(*sub)) if sub else []
+        seen = set()
+        for r in rows:
+            k = json.dumps(r)
+            if k in seen and any(v == A.NULL for v in r):
+                return True
+            seen.add(k)
+    return False
 
 
 def strip_nrows(fr):
